@@ -7,18 +7,19 @@
 #endif
 #define VERIF_INPUTS(S,A) A(char,txt,NG+1)
 #include "verif.h"
-void w_gls(const char *text, int which, long *endpos, int *good, int *eof, int *sev);
+void w_gls(const char *text, int which, long *endpos, int *good, int *eof, int *sev, int *nonempty);
 static int alpha(char c) { return c == '\'' || c == '\\' || c == 'S' || c == 'a' || c == ' ' || c == '#' || c == '('; }
 void harness(void) {
-    int i, stop = 0; long p0, p1; int g0, g1, e0, e1, s0, s1;
+    int i, stop = 0; long p0, p1; int g0, g1, e0, e1, s0, s1, n0, n1;
     VERIF_BEGIN();
     txt[NG] = 0;
     for(i = 0; i < NG; i++) { if(txt[i] == 0) stop = 1; if(stop) ASSUME(txt[i] == 0); else ASSUME(alpha(txt[i])); }
-    w_gls(txt, 0, &p0, &g0, &e0, &s0);
-    w_gls(txt, 1, &p1, &g1, &e1, &s1);
+    w_gls(txt, 0, &p0, &g0, &e0, &s0, &n0);
+    w_gls(txt, 1, &p1, &g1, &e1, &s1, &n1);
     OBS("text=[%s] real: pos=%ld good=%d eof=%d sev=%d  contract: pos=%ld good=%d eof=%d sev=%d", txt, p0, g0, e0, s0, p1, g1, e1, s1);
     CHECK(p0 == p1, "the contract leaves the stream where GetLiteralStr leaves it");
     CHECK(g0 == g1 && e0 == e1, "the contract leaves the stream state GetLiteralStr leaves");
     CHECK(s0 == s1, "the contract reports the error GetLiteralStr reports");
+    CHECK(n0 == n1, "the contract returns an empty text exactly when GetLiteralStr does");
     VERIF_END();
 }
